@@ -69,14 +69,32 @@ class Loaded:
         self.close()
 
 
-def drive(coro):
-    """Run a coroutine that never really suspends."""
+class Closed:
+    """Outcome marker: the harness closed the coroutine at a gate."""
+
+
+def drive(coro, actions=None):
+    """Run a coroutine. It only suspends at harness gates (vrt.Yield); ``actions`` maps the gate tag to what
+    the driver does there: None/absent = resume, ("throw", exc) = throw exc into it, ("close",) = close it."""
     try:
         y = coro.send(None)
+        while True:
+            act = (actions or {}).pop(y, None) if isinstance(y, tuple) else None
+            if isinstance(y, tuple) and y and y[0] == "gate":
+                if act is None:
+                    y = coro.send(None)
+                elif act[0] == "throw":
+                    y = coro.throw(act[1])
+                elif act[0] == "close":
+                    coro.close()
+                    return Closed
+                else:
+                    raise RuntimeError("vf: unknown gate action %r" % (act,))
+            else:
+                coro.close()
+                raise RuntimeError("vf: coroutine suspended unexpectedly on %r" % (y,))
     except StopIteration as e:
         return e.value
-    coro.close()
-    raise RuntimeError("vf: coroutine suspended unexpectedly on %r" % (y,))
 
 
 _VIOL_RE = re.compile(r"#(\d+):")
@@ -103,10 +121,25 @@ def classify_exc(loaded, run, e):
 
 
 def describe_ret(run, v):
+    if v is Closed:
+        return "closed"
     lab = run.label_of(v)
     if lab is not None:
         return lab
     return type(v).__name__
+
+
+class ReprBomb:
+    """Argument whose __repr__ raises the armed fault (C11: failing value repr during message building)."""
+
+    def __init__(self, run):
+        self._run = run
+
+    def __repr__(self):
+        h = self._run.hooks.get(("repr", "arg"))
+        if h is not None:
+            h(self._run, {})
+        return "<bomb>"
 
 
 class Executor:
@@ -121,7 +154,9 @@ class Executor:
         """Create the argument tokens for an op; labels are the strings found in op['args']."""
         out = {}
         for p, label in (op.get("args") or {}).items():
-            if label.startswith("list:"):
+            if label.startswith("bomb:"):
+                out[p] = self.run.tok(label, lambda: ReprBomb(self.run))
+            elif label.startswith("list:"):
                 out[p] = self.run.tok(label, lambda: ["orig"])
             else:
                 out[p] = self.run.tok(label)
@@ -131,6 +166,8 @@ class Executor:
         """Returns ('ret', description) or ('exc', classification); never raises for program outcomes."""
         run = self.run
         mark = len(run.log)
+        self.opno = getattr(self, "opno", -1) + 1
+        run.opno = self.opno
         if op["op"] != "new" and "k" in op and op["k"] not in self.inst:
             return ("skip", None, mark)
         for key in [k for k in run.counts if isinstance(k, int)]:
@@ -141,7 +178,7 @@ class Executor:
             v = self._do(op)
             return ("ret", describe_ret(run, v) if op["op"] != "new" else "inst", mark)
         except BaseException as e:  # noqa
-            run.exceptions.append((len(run.log), e))
+            run.exceptions.append((self.opno, e))
             if isinstance(e, RecursionError) and run.label_of(e) is None:
                 return ("exc", ("nonterminating", str(e)[:100]), mark)
             return ("exc", classify_exc(self.l, run, e), mark)
@@ -150,7 +187,7 @@ class Executor:
         import inspect
 
         if inspect.iscoroutine(v):
-            return drive(v)
+            return drive(v, getattr(self.run, "gate_actions", None))
         return v
 
     def _do(self, op):
@@ -221,6 +258,13 @@ def execute(loaded, ops, truth, hooks=None, bodies=None, event_budget=20000, scr
                 run.hooks[tuple(key)] = _script_hook(ex, tuple(key), steps)
         outs = [ex.do(op) for op in ops]
         run.instances = ex.inst
+        try:
+            import icontract._checkers as _CK
+
+            var = getattr(_CK, "_IN_PROGRESS", None)
+            run.in_progress_after = None if var is None else set(var.get() or ())
+        except Exception:  # noqa - secondary observation only
+            run.in_progress_after = None
     finally:
         V.end()
     return run.log, outs, run
